@@ -5,9 +5,11 @@ import (
 	"errors"
 	"fmt"
 	"io"
+	"net"
 	"strings"
 	"time"
 
+	"tunnox-core/internal/client/mapping"
 	"tunnox-core/internal/client/tunnel"
 	"tunnox-core/internal/stream/transform"
 	"tunnox-core/internal/utils/iocopy"
@@ -60,6 +62,7 @@ type c12tun struct {
 	cutErr     bool  // the cut is a transport error instead of EOF
 	withData   bool  // the terminal result is returned together with the last bytes
 	failWrites bool  // after the cut the write side fails too
+	rideEnd    bool  // like TLS/QUIC streams: when the peer has already finished, the last chunk comes with io.EOF in the same Read
 
 	delivered   int64
 	term        bool // the relay has been handed the end of the inbound stream
@@ -73,6 +76,7 @@ type c12tun struct {
 	closes      int
 	closeWrites int
 	writeFailed bool
+	rode        bool // a Read returned data together with the natural end of the stream
 }
 
 func (t *c12tun) ended(err error, fromTunnel bool) {
@@ -122,6 +126,11 @@ func (t *c12tun) Read(p []byte) (int, error) {
 		t.ended(t.cutResult(), true)
 		return n, t.deadErr
 	}
+	if t.rideEnd && n > 0 && t.c.PeerClosedWrite() && t.c.Pending() == 0 {
+		t.rode = true
+		t.ended(io.EOF, true)
+		return n, io.EOF
+	}
 	return n, nil
 }
 
@@ -155,9 +164,10 @@ func (x c12tunNoCW) Read(p []byte) (int, error)  { return x.t.Read(p) }
 func (x c12tunNoCW) Write(p []byte) (int, error) { return x.t.Write(p) }
 func (x c12tunNoCW) Close() error                { return x.t.Close() }
 
-// c12udp is the relay's datagram endpoint (one Read = one datagram).
+// c12udp is the relay's datagram endpoint (one Read = one datagram). It shows
+// the relay nothing but io.ReadWriteCloser.
 type c12udp struct {
-	c      *simnet.Conn
+	c      io.ReadWriteCloser
 	inRead bool
 	closes int
 }
@@ -170,6 +180,35 @@ func (u *c12udp) Read(p []byte) (int, error) {
 }
 func (u *c12udp) Write(p []byte) (int, error) { return u.c.Write(p) }
 func (u *c12udp) Close() error                { u.closes++; return u.c.Close() }
+
+// c12udpDL additionally exposes the endpoint's own read-deadline behaviour
+// (a socket wakes a blocked Read, mapping.UDPVirtualConn only samples the
+// deadline when a Read starts).
+type c12udpDL struct {
+	*c12udp
+	dl interface{ SetReadDeadline(time.Time) error }
+}
+
+func (u c12udpDL) SetReadDeadline(t time.Time) error { return u.dl.SetReadDeadline(t) }
+
+// c12pktConn plays the kernel socket under a mapping.UDPMappingAdapter: what
+// the session's writeLoop sends is what the application receives.
+type c12pktConn struct {
+	w   *simrt.World
+	got *[][]byte
+}
+
+func (p *c12pktConn) WriteTo(b []byte, _ net.Addr) (int, error) {
+	p.w.Yield("udp.socket.sendto")
+	*p.got = append(*p.got, append([]byte(nil), b...))
+	return len(b), nil
+}
+func (p *c12pktConn) ReadFrom([]byte) (int, net.Addr, error) { return 0, nil, io.EOF }
+func (p *c12pktConn) Close() error                           { return nil }
+func (p *c12pktConn) LocalAddr() net.Addr                    { return simnet.Addr{Net: "udp", S: "127.0.0.1:5353"} }
+func (p *c12pktConn) SetDeadline(time.Time) error            { return nil }
+func (p *c12pktConn) SetReadDeadline(time.Time) error        { return nil }
+func (p *c12pktConn) SetWriteDeadline(time.Time) error       { return nil }
 
 // ---------------------------------------------------------------- relay driver
 
@@ -496,6 +535,10 @@ func c12TCP(w *simrt.World, via bool) {
 		t.withData = c.Intn(3, "tcp.cut.withdata") == 2
 		t.failWrites = t.cutErr || c.Intn(3, "tcp.cut.failwrites") == 2
 	}
+	// either relay-side endpoint may report the end of its stream together with
+	// the last bytes (io.Reader allows n > 0 with io.EOF; TLS and QUIC streams do it)
+	t.rideEnd = c.Intn(3, "tcp.tunnel.ride-eof") == 2
+	loc := &c12tun{w: w, c: lb, cutAt: -1, release: t.release, rideEnd: c.Intn(3, "tcp.local.ride-eof") == 2}
 	var tunEnd io.ReadWriteCloser = t
 	if noCW {
 		tunEnd = c12tunNoCW{t}
@@ -533,13 +576,13 @@ func c12TCP(w *simrt.World, via bool) {
 			cutName = "cut-err"
 		}
 	}
-	w.Sample(fmt.Sprintf("tcp via=%v long=%v ratelimited=%v nocw=%v wrap=%d laws=%v capL=%d capT=%d app{len=%d chunks=%v gaps=%v end=%s mark=%d} rem{len=%d chunks=%v gaps=%v end=%s mark=%d} cut=%d err=%v withdata=%v failwrites=%v",
+	w.Sample(fmt.Sprintf("tcp via=%v long=%v ratelimited=%v nocw=%v wrap=%d laws=%v capL=%d capT=%d app{len=%d chunks=%v gaps=%v end=%s mark=%d} rem{len=%d chunks=%v gaps=%v end=%s mark=%d} cut=%d err=%v withdata=%v failwrites=%v ride-eof{local=%v tunnel=%v}",
 		via, long, limited, noCW, wrap, laws, capL, capT, len(app.payload), app.cuts, app.gaps, c12EndNames[app.end], app.mark,
-		len(rem.payload), rem.cuts, rem.gaps, c12EndNames[rem.end], rem.mark, t.cutAt, t.cutErr, t.withData, t.failWrites))
-	w.State(fmt.Sprintf("tcp/%s/%s-%s/%s/nocw=%v", class, c12EndNames[app.end], c12EndNames[rem.end], cutName, noCW))
+		len(rem.payload), rem.cuts, rem.gaps, c12EndNames[rem.end], rem.mark, t.cutAt, t.cutErr, t.withData, t.failWrites, loc.rideEnd, t.rideEnd))
+	w.State(fmt.Sprintf("tcp/%s/%s-%s/%s/nocw=%v/ride=%v,%v", class, c12EndNames[app.end], c12EndNames[rem.end], cutName, noCW, loc.rideEnd, t.rideEnd))
 
 	// ---- run
-	r := c12Start(w, false, via, lb, tunRWC, xf)
+	r := c12Start(w, false, via, loc, tunRWC, xf)
 	tasks := []*simrt.Task{
 		w.Spawn("app.rd", app.reader), w.Spawn("rem.rd", rem.reader),
 		w.Spawn("app.wr", app.writer), w.Spawn("rem.wr", rem.writer),
@@ -595,10 +638,10 @@ func c12TCP(w *simrt.World, via bool) {
 	// ---- delivery oracle
 	anyReset := app.end == c12EndReset || rem.end == c12EndReset
 	// app -> rem
-	c12CheckDir(w, "app-to-tunnel", class, app, rem, -1,
+	c12CheckDir(w, "app-to-tunnel", class, app, rem, -1, loc.rode,
 		!anyReset && rem.end != c12EndClose && !(t.cutAt >= 0 && t.failWrites))
 	// rem -> app (subject to the tunnel cut)
-	c12CheckDir(w, "tunnel-to-app", class, rem, app, t.cutAt,
+	c12CheckDir(w, "tunnel-to-app", class, rem, app, t.cutAt, t.rode || t.term && t.cutAt >= 0 && t.withData && !t.cutErr,
 		!anyReset && app.end != c12EndClose && !(t.cutAt >= 0 && t.cutErr))
 
 	// ---- non-triviality
@@ -619,6 +662,14 @@ func c12TCP(w *simrt.World, via bool) {
 	}
 	if t.term && t.cutAt >= 0 {
 		w.Fault("tunnel." + cutName)
+	}
+	if loc.rode {
+		w.Probe("tcp.local.eof-with-last-chunk")
+		w.Nontrivial()
+	}
+	if t.rode {
+		w.Probe("tcp.tunnel.eof-with-last-chunk")
+		w.Nontrivial()
 	}
 	w.Probe("tcp.class." + class)
 
@@ -654,7 +705,7 @@ func c12Live(w *simrt.World) string {
 
 // c12CheckDir: what y received must be a prefix of what x sent; when nothing
 // legitimately interrupts the direction it must be everything (up to the cut).
-func c12CheckDir(w *simrt.World, dir, class string, x, y *c12peer, cut int64, complete bool) {
+func c12CheckDir(w *simrt.World, dir, class string, x, y *c12peer, cut int64, rode, complete bool) {
 	want := x.payload
 	if cut >= 0 && int64(len(want)) > cut {
 		want = want[:cut]
@@ -670,6 +721,9 @@ func c12CheckDir(w *simrt.World, dir, class string, x, y *c12peer, cut int64, co
 		order := "reverse-direction-still-open"
 		if y.ended && (y.end == c12EndHalf || y.end == c12EndReply) {
 			order = "after-receiver-half-closed"
+		}
+		if rode {
+			order = "last-chunk-read-together-with-eof"
 		}
 		w.Violationf("C12:tcp-deliver:"+dir+":"+class+":"+order, "%s sent/should have sent %d bytes (accepted %d, write error %v) but %s received only %d (read ended with %v); %s.end=%s %s.end=%s",
 			x.name, len(want), x.sent, x.werr, y.name, len(y.got), y.rerr, x.name, c12EndNames[x.end], y.name, c12EndNames[y.end])
@@ -803,6 +857,19 @@ func c12UDP(w *simrt.World, via bool) {
 		t.withData = c.Intn(3, "udp.cut.withdata") == 2
 		t.failWrites = t.cutErr || c.Intn(2, "udp.cut.failwrites") == 1
 	}
+	t.rideEnd = c.Intn(3, "udp.tunnel.ride-eof") == 2
+	// what the relay's datagram endpoint is: 0 a bare io.ReadWriteCloser, 1 socket-like (a read
+	// deadline interrupts a blocked Read, as *net.UDPConn on the target side), 2 the real
+	// mapping.UDPVirtualConn of a UDPMappingAdapter session (listen side)
+	udpKind := c.Intn(3, "udp.local.kind")
+	if udpKind == 2 && len(out) == 0 {
+		udpKind = 0 // a session exists only once its source address has sent a datagram
+	}
+	kindName := []string{"rwc", "socket", "udpvirtualconn"}[udpKind]
+	kindSuffix := ""
+	if udpKind != 0 {
+		kindSuffix = ":" + kindName
+	}
 	lawIn := []simnet.Law{simnet.LawAll, simnet.LawMixed, simnet.LawMTU, simnet.LawSmall, simnet.LawOne}[c.Intn(5, "udp.law")]
 	if N > 6000 && (lawIn == simnet.LawSmall || lawIn == simnet.LawOne) {
 		lawIn = simnet.LawMTU
@@ -845,14 +912,43 @@ func c12UDP(w *simrt.World, via bool) {
 	for _, d := range out {
 		outSizes = append(outSizes, len(d))
 	}
-	w.Sample(fmt.Sprintf("udp via=%v wrap=%d in=%v (encoded %dB, chunks=%v gaps=%v law=%s) out=%v gaps=%v cut=%d(%s) end=%s withdata=%v failwrites=%v",
-		via, wrap, inSizes, N, chunks, inGaps, simnet.LawNames[lawIn], outSizes, outGaps, t.cutAt, cutClass, endKind, t.withData, t.failWrites))
-	w.State(fmt.Sprintf("udp/via=%v/%s/%s/wd=%v/fw=%v/in%d/out%d", via, cutClass, endKind, t.withData, t.failWrites, c12Bucket(len(in)), c12Bucket(len(out))))
+	w.Sample(fmt.Sprintf("udp via=%v wrap=%d in=%v (encoded %dB, chunks=%v gaps=%v law=%s) out=%v gaps=%v cut=%d(%s) end=%s withdata=%v failwrites=%v ride-eof=%v local=%s",
+		via, wrap, inSizes, N, chunks, inGaps, simnet.LawNames[lawIn], outSizes, outGaps, t.cutAt, cutClass, endKind, t.withData, t.failWrites, t.rideEnd, kindName))
+	w.State(fmt.Sprintf("udp/via=%v/%s/%s/wd=%v/fw=%v/in%d/out%d/%s", via, cutClass, endKind, t.withData, t.failWrites, c12Bucket(len(in)), c12Bucket(len(out)), kindName))
 
 	ua, ub := simnet.NewLink(w, simnet.LinkConfig{NameA: "app", NameB: "local", Message: true})
 	ta, tb := simnet.NewLink(w, simnet.LinkConfig{NameA: "tun", NameB: "rem", LawBA: lawIn})
 	t.c = ta
+	var appGot [][]byte
+	appSent := 0
 	local := &c12udp{c: ub}
+	var localRWC io.ReadWriteCloser = local
+	appClose := func() { ua.Close() }
+	appSend := func(d []byte) error { _, err := ua.Write(d); return err }
+	var adapter *mapping.UDPMappingAdapter
+	switch udpKind {
+	case 1:
+		localRWC = c12udpDL{local, ub}
+	case 2:
+		// listen side of a UDP mapping without the kernel: the harness injects the
+		// application's datagrams where readLoop would, the first one creates the
+		// session exactly as in production, Accept hands it to the relay, and the
+		// session's writeLoop sends to the fake socket.
+		sock := &c12pktConn{w: w, got: &appGot}
+		appAddr := simnet.Addr{Net: "udp", S: "127.0.0.1:40001"}
+		adapter = mapping.NewUDPMappingAdapter()
+		adapter.InjectPacketForVerif(sock, appAddr, out[0])
+		appSent = 1
+		vc, err := adapter.Accept()
+		if err != nil {
+			w.Violationf("C12:harness:udp-accept", "%v", err)
+			return
+		}
+		local = &c12udp{c: vc}
+		localRWC = c12udpDL{local, vc.(interface{ SetReadDeadline(time.Time) error })}
+		appClose = func() { vc.Close() } // what the stale-session sweep and adapter shutdown do
+		appSend = func(d []byte) error { adapter.InjectPacketForVerif(sock, appAddr, d); return nil }
+	}
 	var tunRWC io.ReadWriteCloser = t
 	if wrap == 0 {
 		var err error
@@ -862,12 +958,14 @@ func c12UDP(w *simrt.World, via bool) {
 			return
 		}
 	}
-	r := c12Start(w, true, via, local, tunRWC, nil)
+	r := c12Start(w, true, via, localRWC, tunRWC, nil)
 
 	// ---- peers
-	var appGot [][]byte
 	var appRerr error
 	appRd := w.Spawn("app.rd", func() {
+		if udpKind == 2 {
+			return // the application's receptions are what the fake socket was asked to send
+		}
 		buf := make([]byte, 70000)
 		for {
 			n, err := ua.Read(buf)
@@ -878,13 +976,16 @@ func c12UDP(w *simrt.World, via bool) {
 			appGot = append(appGot, append([]byte(nil), buf[:n]...))
 		}
 	})
-	appSent := 0
+	firstOut := appSent
 	appWr := w.Spawn("app.wr", func() {
 		for i, d := range out {
+			if i < firstOut {
+				continue
+			}
 			if outGaps[i] > 0 {
 				w.Sleep(outGaps[i])
 			}
-			if _, err := ua.Write(d); err != nil {
+			if err := appSend(d); err != nil {
 				return
 			}
 			appSent++
@@ -955,7 +1056,7 @@ func c12UDP(w *simrt.World, via bool) {
 		if !inAll {
 			w.Violationf("C12:udp-in:not-delivered-while-idle", "far end wrote %d complete records, application has %d datagrams %v later", len(in), len(appGot), c12Bound)
 		}
-		ua.Close() // the application goes away; rem then finishes the tunnel stream
+		appClose() // the application goes away; rem then finishes the tunnel stream
 		w.Fault("app.close-first")
 	}
 	// the tunnel stream ends (cut, or rem's close): from the moment the relay is
@@ -983,12 +1084,12 @@ func c12UDP(w *simrt.World, via bool) {
 		case local.inRead:
 			behaviour = "waits-for-datagram-on-udp-side"
 		}
-		w.Violationf("C12:udp-return:"+endKind+":"+cutClass+":"+behaviour, "tunnel stream ended (%v) at offset %d (%s) at t=%v; %v later iocopy.UDP has not returned: spin=%v (reads after the terminal result: %d) udpReadOutstanding=%v; live=%v",
+		w.Violationf("C12:udp-return:"+endKind+":"+cutClass+":"+behaviour+kindSuffix, "tunnel stream ended (%v) at offset %d (%s) at t=%v; %v later iocopy.UDP has not returned: spin=%v (reads after the terminal result: %d) udpReadOutstanding=%v; live=%v",
 			t.termErr, t.cutAt, cutClass, t.termAt, c12Bound, t.spin, t.postReads, local.inRead, c12Live(w))
 		// what production eventually does: the datagram session goes away. A relay
 		// whose only problem is the outstanding UDP read then returns.
 		close(t.release)
-		ua.Close()
+		appClose()
 		w.Fault("rescue.close-udp-side")
 		if !c12Await(w, w.Now()+c12Bound, r.returned) {
 			w.Violationf("C12:udp-return:stuck-even-after-udp-side-closed:"+cutClass, "relay still has not returned %v after the datagram side was closed too; live=%v", c12Bound, c12Live(w))
@@ -999,12 +1100,13 @@ func c12UDP(w *simrt.World, via bool) {
 			w.Probe("udp.returned-in-time")
 		}
 	}
-	c12CheckTunnelClosed(w, r, ub.Closed(), t)
+	c12CheckTunnelClosed(w, r, local.closes > 0, t)
 
 	// Let the peers drain before judging delivery (see c12TCP): the relay may have
 	// returned at the very instant the watchdog polled, with its last datagram /
 	// final flush still unread in a peer's socket.
 	if r.returned() {
+		w.Sleep(time.Millisecond) // a UDPVirtualConn sends from its own writeLoop goroutine
 		c12Await(w, w.Now()+c12Bound, func() bool { return appRd.Done() && remRd.Done() })
 	}
 	if appGotAtVerdict < 0 {
@@ -1041,7 +1143,7 @@ func c12UDP(w *simrt.World, via bool) {
 		}
 	}
 	if !appFirst && !t.cutErr && appGotAtVerdict < len(want) {
-		w.Violationf("C12:udp-in:missing-datagram:"+cutClass, "%d complete records precede the end-of-stream at offset %d but the application had only %d datagrams %v after it (application read ended: %v)", len(want), lim, appGotAtVerdict, c12Bound, appRerr)
+		w.Violationf("C12:udp-in:missing-datagram:"+cutClass+kindSuffix, "%d complete records precede the end-of-stream at offset %d but the application had only %d datagrams %v after it (application read ended: %v)", len(want), lim, appGotAtVerdict, c12Bound, appRerr)
 	}
 	// ---- application -> tunnel: the harness decoder must read back the datagrams
 	ds, rest := c12Decode(remGot)
@@ -1090,8 +1192,15 @@ func c12UDP(w *simrt.World, via bool) {
 		w.Probe("udp.far-end-saw-eof")
 	}
 	w.Probe("udp.cut." + cutClass)
+	w.Probe("udp.local." + kindName)
+	if t.rode {
+		w.Probe("udp.tunnel.eof-with-last-chunk")
+	}
 
 	// ---- cleanup
+	if adapter != nil {
+		adapter.Close()
+	}
 	ua.Close()
 	tb.Close()
 	ub.Close()
@@ -1141,16 +1250,17 @@ func init() {
 		Rule: "each run draws a relay kind (TCP iocopy.Bidirectional or UDP iocopy.UDP; called directly or through a real tunnel.Tunnel/runDataCopy) and a per-run configuration. " +
 			"TCP: two position-stamped payloads (0,1,small, around the 32K/64K buffers, up to 300K), write chunkings with pauses, per-end read segmentation law and buffer capacity, an end-of-stream script per side " +
 			"(half-close and read on / close / reset after part of the payload / send head, wait for the other side's EOF, send the rest), a tunnel with or without half-close support, optional rate-limiting transformer, " +
-			"optional transfer that stays active for >5 simulated minutes, optional tunnel cut (EOF or error, at a drawn byte offset, with or without data in the same Read, write side failing or not). " +
+			"optional transfer that stays active for >5 simulated minutes, optional tunnel cut (EOF or error, at a drawn byte offset, with or without data in the same Read, write side failing or not), and for each relay-side endpoint whether the natural end of its stream is reported together with the last chunk (n>0 with io.EOF, as TLS/QUIC streams do). " +
 			"UDP: two datagram sequences (sizes 1,2,3,255,256,1200,1472,9000,32768,65507; 0-70 datagrams incl. >32 and bursts over 128/256 KiB), pauses longer than the flush timers, the far end's write chunking and read law, and the position at which the tunnel stream ends or fails, " +
-			"drawn relative to a record (boundary, inside the 2-byte prefix, after the prefix, first payload byte, last payload byte missing, anywhere in the payload, clean end) or the application side closing first. " +
+			"drawn relative to a record (boundary, inside the 2-byte prefix, after the prefix, first payload byte, last payload byte missing, anywhere in the payload, clean end) or the application side closing first; the relay's datagram endpoint is a bare io.ReadWriteCloser, a socket-like endpoint whose read deadline interrupts a blocked Read, or the real mapping.UDPVirtualConn session of a UDPMappingAdapter fed through processPacket. " +
 			"Scheduler interleavings of the copy goroutines, flush goroutine and the four peer tasks are drawn by the scheduler. " +
 			"A run is non-trivial when (TCP) bytes were delivered to a side after that side had half-closed, or a reply was sent after the peer's EOF arrived through the relay, or a close/reset/cut fired in a run that carried data; " +
-			"(UDP) the tunnel stream ended strictly inside a record, or ended at a boundary after datagrams had crossed in both directions. distinct = distinct schedule hash among those.",
+			"or a relay-side endpoint reported EOF in the same Read as its last bytes; (UDP) the tunnel stream ended strictly inside a record, or ended at a boundary after datagrams had crossed in both directions. distinct = distinct schedule hash among those.",
 		Real: []string{"internal/utils/iocopy Bidirectional, UDP, NewReadWriteCloser/readWriteCloser, tryCloseWrite", "internal/client/tunnel Tunnel (Start, runDataCopy, Close, monitorTimeout), DefaultTunnelManager",
-			"internal/stream/transform NoOpTransformer, RateLimitedTransformer", "internal/core/dispose"},
+			"internal/stream/transform NoOpTransformer, RateLimitedTransformer", "internal/core/dispose",
+			"internal/client/mapping UDPMappingAdapter.processPacket/getOrCreateSession/Accept/Close and UDPVirtualConn (Read, Write, writeLoop, SetReadDeadline, Close) in a third of the UDP runs"},
 		Stub: []string{"local application socket and tunnel stream: simnet links (stream with half-close/reset/capacity; message link as the datagram socket)", "tunnel.ClientInterface (close notify counter)",
-			"far end of the tunnel and the application: scripted harness peers", "mapping.UDPVirtualConn / net.UDPConn are replaced by the message link (sendmmsg path not reachable)"},
+			"far end of the tunnel and the application: scripted harness peers", "net.UDPConn is replaced by the message link (sendmmsg path not reachable); under the UDPMappingAdapter the kernel socket (readLoop/ReadBatch, WriteTo) is a harness PacketConn"},
 		Assumptions: []string{
 			"'promptly' / 'once both directions have finished' = within 1 simulated second after the relay has been handed the end of the tunnel stream (UDP) or after both senders ended their write side / the tunnel was cut (TCP)",
 			"completeness of a direction is demanded only when nothing legitimately interrupts it: no reset on either link, the receiver keeps reading until EOF, no injected tunnel failure on that direction",
